@@ -513,7 +513,9 @@ class IntervalNumpyPS(IntervalPS):
         if base_objects_i is None:
             flg = (min_ <= self._data[:,0]) & (self._data[:, 1] <= max_)
         else:
+            base_objects_i = np.asarray(base_objects_i, dtype=int)
             flg = (min_ <= self._data[base_objects_i, 0]) & (self._data[base_objects_i, 1] <= max_)
+            return base_objects_i[flg].tolist()
 
         return flg.nonzero()[0].tolist()
 
